@@ -19,8 +19,8 @@ RULE = (
 EXHAUSTIVE = {"quick": True, "thorough": True}
 EXHAUSTIVE_PART = "all nuclide bases, elements, burn-chain entries and material classes (temperatures are a grid over each stated range)"
 TOLERANCES = {"abundance_sum": 1e-6, "massfrac_sum": 1e-5}
-FLOORS = {"quick": {"nuclide": 4000, "element": 100, "burnchain.entry": 100, "material": 40, "material.T": 500, "nucDir.natural": 200, "nucDir.natural-mass": 60, "nucDir.members": 100, "encoding.mcc": 500, "burnchain.file-vs-live": 30, "burnchain.file-product": 100},
-          "thorough": {"nuclide": 4000, "element": 100, "burnchain.entry": 100, "material": 40, "material.T": 5000, "nucDir.natural": 200, "nucDir.natural-mass": 60, "nucDir.members": 100, "encoding.mcc": 500, "burnchain.file-vs-live": 30, "burnchain.file-product": 100}}
+FLOORS = {"quick": {"nuclide": 4000, "element": 100, "burnchain.entry": 100, "material": 40, "material.again": 40, "material.T": 500, "nucDir.natural": 200, "nucDir.natural-mass": 60, "nucDir.members": 100, "encoding.mcc": 500, "burnchain.file-vs-live": 30, "burnchain.file-product": 100},
+          "thorough": {"nuclide": 4000, "element": 100, "burnchain.entry": 100, "material": 40, "material.again": 40, "material.T": 5000, "nucDir.natural": 200, "nucDir.natural-mass": 60, "nucDir.members": 100, "encoding.mcc": 500, "burnchain.file-vs-live": 30, "burnchain.file-product": 100}}
 
 SYMBOLS = ("H HE LI BE B C N O F NE NA MG AL SI P S CL AR K CA SC TI V CR MN FE CO NI CU ZN GA GE AS SE BR KR RB SR Y ZR NB MO TC RU RH PD "
            "AG CD IN SN SB TE I XE CS BA LA CE PR ND PM SM EU GD TB DY HO ER TM YB LU HF TA W RE OS IR PT AU HG TL PB BI PO AT RN FR RA AC TH "
@@ -358,6 +358,19 @@ def do_materials(spec, rec, rng):
         tot = sum(mf.values())
         if abs(tot - 1.0) > TOLERANCES["massfrac_sum"]:
             rec.violation("material/massfrac-sum/%s" % name, "%s mass fractions sum to %r (%d nuclides)" % (name, tot, len(mf)), dict(w, massFrac=mf))
+        # "every library material can be instantiated": every time, not only the first time in a process - a second, third and a
+        # duplicated instance hold the same composition and density as the first (shared mutable class state would show here)
+        try:
+            rec.hit("material.again")
+            for how, mk in (("second instance", cls), ("third instance", cls), ("duplicate()", m.duplicate)):
+                m_ = mk()
+                if dict(m_.massFrac) != mf or m_.refDens != m.refDens:
+                    diff = sorted(k for k in set(mf) | set(m_.massFrac) if mf.get(k) != m_.massFrac.get(k))
+                    rec.violation("material/instance-differs-from-first/%s" % name, "%s: the %s differs from the first instance in %s (sum of fractions %r vs %r; refDens %r vs %r)" % (
+                        name, how, diff[:5], sum(m_.massFrac.values()), tot, m_.refDens, m.refDens), dict(w, how=how))
+                    break
+        except Exception as e:
+            rec.crash("material-instantiate-again/" + name, e, w)
         try:
             nucs = m.getNuclides()
             if sorted(nucs) != sorted(mf):
